@@ -370,7 +370,7 @@ class MethodMixin:
             self.assumptions.add('copy.copy of an object is a shallow field-wise copy')
             return VStruct(v.sort, v.pycls, dict(v.f), v.tag)
         if isinstance(v, VBox):
-            return VBox(v.kind, v.term, v.esort)
+            return VBox(v.kind, v.term, v.esort, v.keys, v.vsort)
         if isinstance(v, PyList):
             return PyList(v.items, v.kind)
         if not is_sym(v):
@@ -378,6 +378,11 @@ class MethodMixin:
         return v
 
     def b_chain(self, a, k, n, f):
+        views = [x for x in a if isinstance(x, IterView)]
+        if views:
+            if len(views) != len(a) or any(v.kind != 'dict' for v in views):
+                raise Unsupported('itertools.chain of symbolic views other than dict views')
+            return IterView('dict', [], parts=[p_ for v in views for p_ in v.parts])
         out = []
         for x in a:
             out.extend(self.concrete_iter(x, n))
@@ -480,13 +485,16 @@ class MethodMixin:
         if isinstance(recv, VObj):
             # method of an opaque object: an uninterpreted function of the object and the arguments (assumed pure),
             # recorded in the ghost effect trace
-            argsorts, ret = self.cur_contract.opaque[name]
-            zs = self.zs
-            f = self.ufun(f'obj_{name}', zs.zsort(api.Obj), *[zs.zsort(s_) for s_ in argsorts], zs.zsort(ret))
-            a2 = [zs.lift(self.unwrap_term(a), zs.zsort(s_)) for a, s_ in zip(args, argsorts)]      # extra arguments beyond the declared ones are ignored
+            spec_ = self.cur_contract.opaque[name]
+            argsorts, ret = spec_[0], spec_[1]
+            if len(spec_) > 2 and kwargs:
+                # keyword arguments by declared name: ([sorts], ret, [names])
+                args = list(args) + [None] * (len(spec_[2]) - len(args))
+                for kn_, kv_ in kwargs.items():
+                    args[spec_[2].index(kn_)] = kv_
+            r, a2 = self.opaque_app(name, argsorts, ret, recv.term, args)      # extra arguments beyond the declared ones are ignored
             self.path.trace.append((name, tuple(a2)))
             self.assumptions.add(f'opaque method {name} is a pure function of the object and its arguments')
-            r = f(recv.term, *a2)
             if isinstance(ret, api.List):
                 return VBox(ret.kind, r, ret.elem)
             return self.wrap_sort(r, ret)
@@ -708,6 +716,29 @@ class MethodMixin:
         t = recv.term
         if recv.kind == 'dict':
             dom = t.sort().domain()
+            if name in ('items', 'keys', 'values'):
+                return IterView('dict', [], parts=[(recv, name)])
+            if name == 'copy':
+                return VBox('dict', t, recv.esort, recv.keys, recv.vsort)
+            if name == 'pop':
+                k = self.zs.lift(self.unwrap(args[0], node), dom)
+                has = z3.Select(t, k)
+                val = z3.Select(recv.vsort, k)
+                if recv.keys is not None:
+                    val = self.wrap_sort(val, recv.keys)
+                if len(args) < 2:
+                    if self.implicit_as_paths:
+                        if not self.path.branch(has):
+                            raise PyRaise(KeyError, (), node, implicit=True)
+                    else:
+                        self.oblige('safety:key', has, node)
+                        self.path.assume(has)
+                    recv.term = z3.Store(t, k, False)
+                    return val
+                recv.term = z3.Store(t, k, False)
+                if args[1] is None:
+                    return VOpt(z3.Not(has), val)
+                return self.ite(has, val, args[1])
             if name == 'get':
                 k = self.zs.lift(self.unwrap(args[0], node), dom)
                 has = z3.Select(t, k)
